@@ -10,6 +10,7 @@ package c17
 
 import (
 	"bytes"
+	"context"
 	"fmt"
 	"io/fs"
 	"math/rand"
@@ -23,6 +24,7 @@ import (
 	"sync/atomic"
 	"time"
 
+	"github.com/whatap/golib/config"
 	"github.com/whatap/golib/logger/logfile"
 	"github.com/whatap/golib/util/dateutil"
 
@@ -74,6 +76,21 @@ func ymd(d int) string {
 type conf struct {
 	level, iv, keep int
 	rot             bool
+	so              bool // lines are also printed to standard output (WithStdout / log_stdout_enabled)
+}
+
+// optForm: which options the constructor is given, and in which form.
+type optForm struct {
+	so       int  // 0: WithStdout not given, 1: WithStdout(true), 2: WithStdout(false)
+	homeVia  int  // 0: WithHomePath, 1: the environment variable WHATAP_HOME, 2: the working directory ("./")
+	defName  bool // WithOnameLogID not given: the defaults "whatap" / "boot"
+	defLevel bool // WithLevel not given: the default level (warn)
+	extras   bool // WithContext and WithConfigObserver given as well
+}
+
+func (o optForm) String() string {
+	return fmt.Sprintf("stdout=%s home=%s name=%v level=%v extras=%v", []string{"-", "on", "off"}[o.so],
+		[]string{"option", "env", "cwd"}[o.homeVia], !o.defName, !o.defLevel, o.extras)
 }
 
 type hist struct {
@@ -99,6 +116,11 @@ type hist struct {
 	extN    int
 	err     error
 	stats   map[string]int
+	of      optForm            // how the loggers of this history are constructed
+	decoy   []string           // names of decoy files put where a fallback of Read could look (outside <home>/logs)
+	envOld  map[string]*string // environment variables changed by this history (restored at its end)
+	cwdOld  string             // the working directory to go back to
+	confN   int
 }
 
 func (h *hist) fail(f string, a ...interface{}) {
@@ -312,16 +334,184 @@ func (h *hist) curName() core.Bytes {
 }
 
 func (h *hist) open(id, oname string, level int) {
+	of := h.of
+	var opts []logfile.FileLoggerOption
+	if of.extras {
+		ctx, cancel := context.WithCancel(context.Background())
+		defer cancel()
+		opts = append(opts, logfile.WithContext(ctx, cancel), logfile.WithConfigObserver(config.NewConfigObserver()))
+	}
+	switch of.homeVia {
+	case 0:
+		opts = append(opts, logfile.WithHomePath(h.home))
+	case 1: // read by the constructor only
+		old, had := os.LookupEnv(logfile.HOME_ENV_KEY)
+		os.Setenv(logfile.HOME_ENV_KEY, h.home)
+		defer func() {
+			if had {
+				os.Setenv(logfile.HOME_ENV_KEY, old)
+			} else {
+				os.Unsetenv(logfile.HOME_ENV_KEY)
+			}
+		}()
+	case 2: // "./": the working directory is <home> as long as the history lasts
+		h.chdir(h.home)
+		h.setenv(logfile.HOME_ENV_KEY, "")
+	}
+	if of.defName {
+		id, oname = "whatap", "boot"
+	} else {
+		opts = append(opts, logfile.WithOnameLogID(oname, id))
+	}
+	if of.defLevel {
+		level = 2
+	} else {
+		opts = append(opts, logfile.WithLevel(level))
+	}
+	switch of.so {
+	case 1:
+		opts = append(opts, logfile.WithStdout(true))
+	case 2:
+		opts = append(opts, logfile.WithStdout(false))
+	}
+	if of != (optForm{}) && len(opts) > 1 && h.rng.Intn(2) == 0 { // the order of the options is of no consequence
+		opts[0], opts[len(opts)-1] = opts[len(opts)-1], opts[0]
+	}
 	h.id, h.oname = id, oname
-	h.cf = conf{level: level, iv: 10, keep: 7, rot: true}
-	if msg := core.Guard(func() {
-		h.lg = logfile.NewFileLoggerForVerif(logfile.WithHomePath(h.home), logfile.WithOnameLogID(oname, id), logfile.WithLevel(level))
-	}); msg != "" {
+	h.cf = conf{level: level, iv: 10, keep: 7, rot: true, so: of.so == 1}
+	if msg := core.Guard(func() { h.lg = logfile.NewFileLoggerForVerif(opts...) }); msg != "" {
 		h.t.Emit(core.Ev{"ev": "Panic", "in": "Open", "msg": msg})
 		return
 	}
-	h.t.Emit(core.Ev{"ev": "Open", "id": core.Str(id), "oname": core.Str(oname), "level": level, "cur": h.curName(), "obs": h.obs()})
+	h.t.Emit(core.Ev{"ev": "Open", "id": core.Str(id), "oname": core.Str(oname), "level": level, "so": h.cf.so, "opts": of.String(),
+		"cur": h.curName(), "obs": h.obs()})
 	h.checkClock()
+}
+
+// setenv points an environment variable somewhere ("" = unset) until the history ends.
+func (h *hist) setenv(k, v string) {
+	if h.envOld == nil {
+		h.envOld = map[string]*string{}
+	}
+	if _, done := h.envOld[k]; !done {
+		if old, had := os.LookupEnv(k); had {
+			h.envOld[k] = &old
+		} else {
+			h.envOld[k] = nil
+		}
+	}
+	if v == "" {
+		os.Unsetenv(k)
+	} else {
+		os.Setenv(k, v)
+	}
+}
+
+// chdir changes the working directory until the history ends.
+func (h *hist) chdir(dir string) {
+	if h.cwdOld == "" {
+		wd, err := os.Getwd()
+		if err != nil {
+			h.fail("getwd: %v", err)
+			return
+		}
+		h.cwdOld = wd
+	}
+	if err := os.Chdir(dir); err != nil {
+		h.fail("chdir %s: %v", dir, err)
+	}
+}
+
+func (h *hist) restoreEnv() {
+	if h.cwdOld != "" {
+		os.Chdir(h.cwdOld)
+		h.cwdOld = ""
+	}
+	for k, old := range h.envOld {
+		if old == nil {
+			os.Unsetenv(k)
+		} else {
+			os.Setenv(k, *old)
+		}
+	}
+	h.envOld = nil
+}
+
+// names a log viewer is known to ask for beside the dated files (GetLogFiles lists the first two from fixed places)
+var wellKnown = []string{"dotnet-profiler.log", "whatap-hook.log", "whatap-boot.log", "whatap.conf"}
+
+// environment variables that name places where programs keep their data
+var placeVars = []string{"ProgramData", "PROGRAMDATA", "ALLUSERSPROFILE", "APPDATA", "LOCALAPPDATA", logfile.HOME_ENV_KEY, "WHATAP_LOG_HOME"}
+
+// decoys (before the Home event lists them): files named h.decoy in the places a fallback of Read could
+// look when <home>/logs has no such file -- two directories beside <home> (environment variables will point
+// to the one, the working directory will be the other) and, below each, WhaTap/ and logs/; and in <home>.
+func (h *hist) decoys() {
+	for _, d := range []string{"../env-a/", "../cwd-b/", ""} {
+		for _, sub := range []string{"", "WhaTap/", "logs/"} {
+			if d == "" && sub == "logs/" {
+				continue
+			}
+			for _, n := range h.decoy {
+				h.put(d+sub+n, "DECOY "+d+sub+n+" is not a file of the logs directory\n")
+			}
+		}
+	}
+}
+
+// pointEnv: the places environment variables name are the decoy directory (each variable set or unset by the
+// history's random source; ProgramData mostly set), and the working directory is the other decoy directory.
+func (h *hist) pointEnv() {
+	if len(h.decoy) == 0 {
+		return
+	}
+	r := h.lrng()
+	for i, k := range placeVars {
+		if k == logfile.HOME_ENV_KEY && h.of.homeVia != 0 {
+			continue
+		}
+		if r.Intn(3) > 0 || (i == 0 && r.Intn(3) > 0) {
+			h.setenv(k, filepath.Join(h.root, "env-a"))
+		} else {
+			h.setenv(k, "")
+		}
+	}
+	if h.of.homeVia != 2 {
+		h.chdir(filepath.Join(h.root, "cwd-b"))
+	}
+}
+
+// listed: the names GetLogFiles gives (used as Read names only; the listing itself is not judged).
+func (h *hist) listed() []string {
+	var out []string
+	core.Guard(func() {
+		m := h.lg.GetLogFiles()
+		if m == nil {
+			return
+		}
+		for en := m.Keys(); en.HasMoreElements(); {
+			out = append(out, en.NextString())
+		}
+	})
+	sort.Strings(out)
+	return out
+}
+
+// readAbsent reads every decoy name and every listed name with windows that exist whatever the file.
+func (h *hist) readAbsent() {
+	names := append(append([]string{}, h.decoy...), h.listed()...)
+	for i, n := range names {
+		if h.err != nil {
+			return
+		}
+		h.read(n, -1, int64(1+h.rng.Intn(200)))
+		switch i % 3 {
+		case 0:
+			h.read(n, 0, 100)
+		case 1:
+			h.read(n, int64(h.rng.Intn(12)), int64(1+h.rng.Intn(12)))
+		}
+	}
 }
 
 func (h *hist) close() {
@@ -344,18 +534,25 @@ func levelName(lv int) string {
 
 func (h *hist) configure(cf conf, viaSetLevel bool) {
 	if viaSetLevel {
-		cf = conf{level: cf.level, iv: h.cf.iv, keep: h.cf.keep, rot: h.cf.rot}
+		cf = conf{level: cf.level, iv: h.cf.iv, keep: h.cf.keep, rot: h.cf.rot, so: h.cf.so}
 		h.lg.SetLevel(cf.level)
 	} else {
-		h.lg.ApplyConfig(&stubConfig{m: map[string]string{
+		m := map[string]string{
 			"log_rotation_enabled": strconv.FormatBool(cf.rot),
 			"log_keep_days":        strconv.Itoa(cf.keep),
 			"_log_interval":        strconv.Itoa(cf.iv),
 			"log_level":            levelName(cf.level),
-		}})
+		}
+		h.confN++
+		if cf.so {
+			m["log_stdout_enabled"] = "true"
+		} else if h.confN%2 == 0 { // off: said, or not said at all
+			m["log_stdout_enabled"] = "false"
+		}
+		h.lg.ApplyConfig(&stubConfig{m: m})
 	}
 	h.cf = cf
-	h.t.Emit(core.Ev{"ev": "Conf", "level": cf.level, "iv": cf.iv, "keep": cf.keep, "rot": cf.rot})
+	h.t.Emit(core.Ev{"ev": "Conf", "level": cf.level, "iv": cf.iv, "keep": cf.keep, "rot": cf.rot, "so": cf.so})
 }
 
 // ------------------------------------------------------------ logging calls
@@ -615,8 +812,12 @@ func (h *hist) begin(gen string, cas int, extra core.Ev) bool {
 	if h.rich {
 		h.layout(hn)
 	}
+	if len(h.decoy) > 0 {
+		h.decoys()
+	}
 	h.t.Emit(core.Ev{"ev": "Home", "out": h.outside()})
-	return true
+	h.pointEnv()
+	return h.err == nil
 }
 
 // lrng: the random source of the layout, separate from the one of the history (so that a generator
@@ -721,6 +922,7 @@ func (h *hist) layoutInside() {
 
 func (h *hist) end(gen string, cas int) {
 	h.close()
+	h.restoreEnv()
 	os.RemoveAll(h.root)
 	if h.awayDir != "" {
 		os.RemoveAll(h.awayDir)
@@ -797,6 +999,9 @@ func (h *hist) pathNames() []string {
 	filepath.WalkDir(h.root, func(p string, de fs.DirEntry, err error) error {
 		if err != nil || p == h.root || p == logs {
 			return nil
+		}
+		if de.IsDir() && (p == filepath.Join(h.root, "env-a") || p == filepath.Join(h.root, "cwd-b") || p == filepath.Join(h.home, "WhaTap")) {
+			return filepath.SkipDir // the decoys are asked for by their plain names (readAbsent)
 		}
 		if strings.HasPrefix(p, logs+string(filepath.Separator)) {
 			rel, _ := filepath.Rel(logs, p)
@@ -903,6 +1108,10 @@ func (h *hist) readArgs(names []string) (string, int64, int64) {
 // genSeq: random sequential histories over every action.
 func genSeq(c *core.Ctx, t *core.Trace, cas int, steps int) error {
 	h := &hist{c: c, t: t, rich: cas%2 == 1}
+	if cas%4 == 1 {
+		h.decoy = wellKnown[:2+cas%3]
+	}
+	h.of = optForm{so: cas % 3, homeVia: []int{0, 0, 0, 1, 0, 2}[cas%6], defLevel: cas%8 == 7, extras: cas%5 == 4}
 	if !h.begin("seq", cas, nil) {
 		return h.err
 	}
@@ -923,6 +1132,7 @@ func genSeq(c *core.Ctx, t *core.Trace, cas int, steps int) error {
 	if h.lg == nil {
 		return h.err
 	}
+	names = append(names, h.decoy...)
 	for i := 0; i < steps && h.err == nil; i++ {
 		switch x := r.Intn(22); {
 		case x >= 20: // somebody else appends to / cuts short / removes a log file (also the one being written)
@@ -966,7 +1176,7 @@ func genSeq(c *core.Ctx, t *core.Trace, cas int, steps int) error {
 			}
 			h.cycle(g)
 		case x < 16:
-			h.configure(conf{level: r.Intn(4), iv: []int{-1, 0, 1, 2, 10}[r.Intn(5)], keep: []int{-1, 0, 1, 2, 3, 7, 30}[r.Intn(7)], rot: r.Intn(4) > 0}, r.Intn(3) == 0)
+			h.configure(conf{level: r.Intn(4), iv: []int{-1, 0, 1, 2, 10}[r.Intn(5)], keep: []int{-1, 0, 1, 2, 3, 7, 30}[r.Intn(7)], rot: r.Intn(4) > 0, so: r.Intn(2) == 0}, r.Intn(3) == 0)
 		case x < 17:
 			h.extN++
 			n := fmt.Sprintf("%s-%s-%s.log", id, []string{oname, "late", "x"}[r.Intn(3)], ymd(h.d-r.Intn(12)))
@@ -1020,6 +1230,8 @@ func genRetain(c *core.Ctx, t *core.Trace, cas int) error {
 // genRead: Read in focus -- every file of a small directory, hostile names, border windows.
 func genRead(c *core.Ctx, t *core.Trace, cas int, n int) error {
 	h := &hist{c: c, t: t, rich: true}
+	h.decoy = append(append([]string{}, wellKnown...), "whatap-boot-"+ymd(300+cas)+".log", "r10", "missing.log")
+	h.of = optForm{homeVia: []int{0, 0, 2, 1}[cas%4], extras: cas%2 == 1}
 	if !h.begin("read", cas, nil) {
 		return h.err
 	}
@@ -1039,6 +1251,13 @@ func genRead(c *core.Ctx, t *core.Trace, cas int, n int) error {
 	}
 	h.configure(conf{level: 1, iv: []int{0, 10}[cas%2], keep: 7, rot: true}, false)
 	names := []string{"r10", "empty.log", "one", "r37.log", "sub/inner.log"}
+	// names that are not in logs/ but are in the places a viewer's other files live (and the listed names)
+	h.readAbsent()
+	names = append(names, h.decoy...)
+	if cas%2 == 1 { // one of them does exist in logs/: that one is served, and from logs/
+		h.ext(h.decoy[cas%len(wellKnown)], []byte("this one is in the logs directory\n"))
+		h.readAbsent()
+	}
 	if cas%4 == 0 { // every window of the 10-byte file, as in the model
 		for e := int64(-1); e <= 11; e++ {
 			for l := int64(-1); l <= 12; l += 1 + int64(r.Intn(2)) {
@@ -1077,12 +1296,16 @@ func genGate(c *core.Ctx, t *core.Trace, cas int) error {
 	id, oname := idPool[cas%len(idPool)], onamePool[cas%len(onamePool)]
 	d, _ := h.randStart()
 	h.clock(d, dayMs-5000)
+	so := ((cas/12)+cas)%2 == 1 // lines also printed to standard output: every entry point with and without, over two rounds of twelve
+	if so {
+		h.of.so = 1
+	}
 	h.open(id, oname, 0)
 	if h.lg == nil {
 		return h.err
 	}
 	if cas%2 == 1 {
-		h.configure(conf{level: 0, iv: 0, keep: 7, rot: true}, false)
+		h.configure(conf{level: 0, iv: 0, keep: 7, rot: true, so: so}, false)
 	}
 	h.log(mkCall("Warn", "", "before midnight", 0, false))
 	why := cas % 3
@@ -1090,9 +1313,9 @@ func genGate(c *core.Ctx, t *core.Trace, cas int) error {
 	case 0: // the date changes
 		h.clock(d+1, 2000)
 	case 1: // rotation is switched off
-		h.configure(conf{level: 0, iv: h.cf.iv, keep: 7, rot: false}, false)
+		h.configure(conf{level: 0, iv: h.cf.iv, keep: 7, rot: false, so: so}, false)
 	case 2: // both
-		h.configure(conf{level: 0, iv: h.cf.iv, keep: 7, rot: false}, false)
+		h.configure(conf{level: 0, iv: h.cf.iv, keep: 7, rot: false, so: so}, false)
 		h.clock(d+2, 1)
 	}
 	var g []call
@@ -1118,13 +1341,17 @@ func genSupp(c *core.Ctx, t *core.Trace, cas int) error {
 	r := h.rng
 	id, oname := idPool[cas%len(idPool)], onamePool[(cas/2)%len(onamePool)]
 	h.clock(h.randStart())
+	so := (cas/2)%2 == 1 // with lines also printed to standard output: by the constructor (interval 10) or by the settings
+	if so {
+		h.of.so = 1
+	}
 	h.open(id, oname, 0)
 	if h.lg == nil {
 		return h.err
 	}
 	iv := []int{10, 1, 2, 10}[cas%4]
 	if cas%4 > 0 {
-		h.configure(conf{level: 0, iv: iv, keep: 7, rot: true}, false)
+		h.configure(conf{level: 0, iv: iv, keep: 7, rot: true, so: so}, false)
 	}
 	ivms := int64(iv) * 1000
 	p := func(fn, pid, text string) { h.log(mkCall(fn, pid, text, 0, false)) }
@@ -1161,17 +1388,137 @@ func genSupp(c *core.Ctx, t *core.Trace, cas int) error {
 			h.advance([]int64{1, 499, 500, 999, 1000, 1001, ivms - 1, ivms}[r.Intn(8)])
 		default:
 			niv := []int{0, 1, 2, 10, -1}[r.Intn(5)]
-			h.configure(conf{level: r.Intn(2), iv: niv, keep: 7, rot: true}, false)
+			h.configure(conf{level: r.Intn(2), iv: niv, keep: 7, rot: true, so: so != (r.Intn(4) == 0)}, false)
 			if niv > 0 {
 				ivms = int64(niv) * 1000
 			}
 		}
 	}
-	h.configure(conf{level: 0, iv: 0, keep: 7, rot: true}, false)
+	h.configure(conf{level: 0, iv: 0, keep: 7, rot: true, so: so}, false)
 	p(pf, "WA1", "alpha")
 	p(pf, "WA1", "alpha") // interval 0: nothing is suppressed
 	p("Warnf", "", "0123456789A")
 	p("Warnf", "", "0123456789A")
+	return h.err
+}
+
+// genOpts: every option of the constructor (given / not given, each form) and every setting ApplyConfig
+// takes, crossed with every entry point: three rounds of all twelve logging calls, each with an id of its
+// own (nothing may be suppressed) -- as constructed, after a settings change that flips the standard-output
+// option, after a rotation over midnight with a call at the gate -- and a repeat inside the interval.
+func genOpts(c *core.Ctx, t *core.Trace, cas int) error {
+	h := &hist{c: c, t: t}
+	h.of = optForm{so: cas % 3, homeVia: (cas / 3) % 3, defName: (cas/9)%2 == 1, defLevel: (cas/18)%2 == 1, extras: (cas/36)%2 == 1}
+	if cas < 9 { // the quick tier sees the other options in both forms too
+		h.of.defName, h.of.defLevel, h.of.extras = cas%4 == 3, cas%4 == 2, cas%2 == 1
+	}
+	if cas%2 == 0 {
+		h.decoy = wellKnown[:2]
+	}
+	if !h.begin("opts", cas, nil) {
+		return h.err
+	}
+	defer h.end("opts", cas)
+	r := h.rng
+	id, oname := idPool[r.Intn(len(idPool))], onamePool[r.Intn(len(onamePool))]
+	d, _ := h.randStart()
+	h.clock(d, dayMs-40000-r.Intn(40000))
+	h.open(id, oname, r.Intn(4))
+	if h.lg == nil {
+		return h.err
+	}
+	round := func(k int) {
+		order := r.Perm(len(fnNames))
+		for _, i := range order {
+			fn := fnNames[i]
+			h.log(mkCall(fn, fmt.Sprintf("ID%d%02d", k, i), fmt.Sprintf("r%d-%02d-%s unique line", k, i, fn), k, r.Intn(4) == 0))
+		}
+		i := order[r.Intn(len(order))] // once more inside the interval: may be suppressed, if the family is cached
+		h.log(mkCall(fnNames[i], fmt.Sprintf("ID%d%02d", k, i), fmt.Sprintf("r%d-%02d-%s again", k, i, fnNames[i]), k, false))
+	}
+	round(0)
+	h.readAbsent()
+	so := !h.cf.so
+	h.configure(conf{level: r.Intn(4), iv: []int{10, 0, 1, 2}[r.Intn(4)], keep: []int{7, 1, 30}[r.Intn(3)], rot: r.Intn(4) > 0, so: so}, false)
+	round(1)
+	if r.Intn(2) == 0 {
+		h.configure(conf{level: h.cf.level, iv: h.cf.iv, keep: h.cf.keep, rot: h.cf.rot, so: !so}, false)
+	}
+	h.clock(d+1, r.Intn(30000))
+	h.cycle([]call{mkCall([]string{"Println", "Printf"}[cas%2], "IDG", "at the gate", cas, false), h.randCall()})
+	round(2)
+	if r.Intn(2) == 0 {
+		h.configure(conf{level: r.Intn(2), iv: h.cf.iv, keep: h.cf.keep, rot: h.cf.rot, so: h.cf.so}, true) // SetLevel
+		round(3)
+	}
+	return h.err
+}
+
+// genSuppMany: suppression with MANY distinct ids: n ids (of all cached families) logged once, each repeated
+// one millisecond before the interval ends (may be suppressed) and again when it is over (a line whose id
+// was not written since must be written), in changing order; then late ids after the interval.  n crosses
+// the sizes at which an id table grows (75, 152, 305, 611) and, in the larger cases, the 1000 ids the
+// logger remembers.
+func genSuppMany(c *core.Ctx, t *core.Trace, cas int, n int) error {
+	h := &hist{c: c, t: t}
+	if cas%2 == 1 {
+		h.of.so = 1
+	}
+	if !h.begin("suppmany", cas, nil) {
+		return h.err
+	}
+	defer h.end("suppmany", cas)
+	r := h.rng
+	id, oname := idPool[cas%len(idPool)], onamePool[(cas/2)%len(onamePool)]
+	d, _ := h.randStart()
+	h.clock(d, r.Intn(dayMs/2))
+	h.open(id, oname, 0)
+	if h.lg == nil {
+		return h.err
+	}
+	iv := []int{10, 2, 1}[cas%3]
+	h.configure(conf{level: 0, iv: iv, keep: 7, rot: true, so: h.cf.so}, false)
+	fns := []string{"Println", "Printf", "Warnf", "Error", "Info", "Infoln", "Errorf", "Warn", "Infof"}
+	mk := func(i, round int) call {
+		fn := fns[(i+cas)%len(fns)]
+		if fnKinds[fn] == "P" {
+			return mkCall(fn, fmt.Sprintf("WA%05d", i), fmt.Sprintf("%d", round), 0, false)
+		}
+		return mkCall(fn, "", fmt.Sprintf("m%05d---.%d", i, round), 0, false) // the first ten bytes are the id
+	}
+	h.stats["ids"] = n
+	for i := 0; i < n && h.err == nil; i++ {
+		h.log(mk(i, 0))
+		if i%50 == 49 && r.Intn(2) == 0 { // an id seen a moment ago, in between
+			h.log(mk(i-r.Intn(40), 1))
+		}
+	}
+	h.advance(int64(iv)*1000 - 1)
+	order := r.Perm(n)
+	for _, i := range order {
+		if h.err != nil {
+			break
+		}
+		if r.Intn(3) > 0 {
+			h.log(mk(i, 2))
+		}
+	}
+	h.advance(1)
+	for _, i := range r.Perm(n) {
+		if h.err != nil {
+			break
+		}
+		if r.Intn(3) > 0 {
+			h.log(mk(i, 3))
+		}
+	}
+	h.advance(int64(iv) * 1000)
+	for k := 0; k < 40 && h.err == nil; k++ {
+		h.log(mk(r.Intn(n+20), 4))
+		if k%10 == 9 {
+			h.advance(int64(1 + r.Intn(iv*1000)))
+		}
+	}
 	return h.err
 }
 
@@ -1374,6 +1721,16 @@ func genBurst(c *core.Ctx, t *core.Trace, gen string, cas int, G, N int, withCyc
 // Run is the driver.
 func Run(c *core.Ctx) error {
 	freezeClock()
+	// what the loggers print to standard output (the stdout option; a logger that has no file) goes to a scratch file
+	if f, err := os.CreateTemp("", "verif-c17-stdout-"); err == nil {
+		realOut := os.Stdout
+		os.Stdout = f
+		defer func() {
+			os.Stdout = realOut
+			f.Close()
+			os.Remove(f.Name())
+		}()
+	}
 	c.Rule = "a history counts when it made at least one logging call, Read or cycle on the real FileLogger; distinct by (generator, case, action counts)"
 	t := c.Trace("c17", "Trace_FileLogger")
 	t2 := c.Trace("c17_env", "Trace_FileLogger") // several writers, faults, non-ASCII windows: judged by a second TLC beside the first
@@ -1383,9 +1740,13 @@ func Run(c *core.Ctx) error {
 		f   func(cas int) error
 	}
 	jobs := []job{
-		{"gate", c.Pick(12, 36), func(cas int) error { return genGate(c, t, cas) }},
+		{"gate", c.Pick(12, 48), func(cas int) error { return genGate(c, t, cas) }},
 		{"retain", c.Pick(8, 40), func(cas int) error { return genRetain(c, t, cas) }},
 		{"supp", c.Pick(8, 40), func(cas int) error { return genSupp(c, t, cas) }},
+		{"opts", c.Pick(9, 72), func(cas int) error { return genOpts(c, t, cas) }},
+		{"suppmany", c.Pick(2, 8), func(cas int) error {
+			return genSuppMany(c, t2, cas, []int{160, 80, 320, 1100, 640, 160, 1100, 320}[cas%8]+c.Rng("suppmany", cas).Intn(5))
+		}},
 		{"read", c.Pick(6, 30), func(cas int) error { return genRead(c, t, cas, c.Pick(40, 80)) }},
 		{"seq", c.Pick(40, 400), func(cas int) error { return genSeq(c, t, cas, c.Pick(40, 70)) }},
 		{"burst", c.Pick(4, 16), func(cas int) error { return genBurst(c, t, "burst", cas, 8, c.Pick(12, 30), false) }},
